@@ -56,6 +56,7 @@ type Env struct {
 	Res  *Result
 	W    *world.World
 	StepCap int64
+	raceOnly bool
 }
 
 type Scenario func(e *Env)
@@ -94,7 +95,16 @@ func RunOneCapped(t *testing.T, prop string, seed uint64, replay []int, tier str
 				res.Infra = "harness panic: " + msg + "\n" + stack()
 			}
 		}()
-		synctest.Test(t, func(t *testing.T) {
+		runBubble := func(t *testing.T, f func(t *testing.T)) {
+			if raceBuild {
+				// the testing package fails (FailNow) a test in which the race detector fired: keep that
+				// inside a subtest so that the worker loop goes on
+				t.Run("run", func(st *testing.T) { synctest.Test(st, f) })
+				return
+			}
+			synctest.Test(t, f)
+		}
+		runBubble(t, func(t *testing.T) {
 			// a panic of the harness itself is infrastructure trouble, never a verdict (and must not kill the worker)
 			defer func() {
 				if r := recover(); r != nil {
@@ -141,6 +151,7 @@ func RunOneCapped(t *testing.T, prop string, seed uint64, replay []int, tier str
 				} else {
 					s.KillAll()
 				}
+				finishRace(e, res)
 				res.Choices = cs.Len()
 				res.ChoiceHash = fmt.Sprintf("%016x", cs.Hash())
 				res.ChoiceVals = cs.Values()
